@@ -80,14 +80,14 @@ def run(ctx):
         bigrams.update(zip(toks, toks[1:]))
     ctx.coverage["traces"] = ntr
     ctx.coverage["event_kinds"] = dict(sorted(kinds.items()))
-    ctx.coverage["distinct_nontrivial"] = len(bigrams)
+    ctx.coverage["distinct_event_bigrams"] = len(bigrams)
     ctx.coverage["rule"] = ("scripted scenarios: D8 late start, D9 close during pending rebalance error, each end cause (heartbeat dropped, "
                             "rebalance signal, partition-count change, watcher connection loss, function return, Close), back-off and heartbeat-rate "
                             "observations; random reactive scenarios: 1-3 topics, watchers on/off, error rate 0/10/25/40 % on every coordinator call "
                             "(connect, findCoordinator, joinGroup, readPartitions, syncGroup, offsetFetch, heartbeat, leaveGroup; kafka codes incl. 27/25/22/16/15/3 "
                             "and dropped connections, in-body and returned errors), random order of answering held calls / Next / Start (also on ended "
                             "generations) / function return / Close; multi-member scenarios: 2-3 ConsumerGroups on one simulated coordinator (join barrier, evictions, "
-                            "leaves), the combined log split per member. distinct_nontrivial = distinct event bigrams (event kind + outcome class)")
+                            "leaves), the combined log split per member. distinct_nontrivial = distinct op lines (traces / observations); distinct_event_bigrams = distinct event bigrams (event kind + outcome class)")
     concrete = [d for d in dis if d.get("kind") == "disagreement" and not d["holds_on_impl"]]
     others = [d for d in dis if d not in concrete]
     recorded = 0
